@@ -1,6 +1,6 @@
 (* C14: remove_measurements/barriers/includes remove all and only those statements. *)
 From Coq Require Import ZArith List Bool String.
-From Verif Require Import BGate PyVal Ast State Unroll Corr Spec Transforms TransformProofs ModuleSpec ModuleProofs.
+From Verif Require Import BGate PyVal Ast State Unroll Corr Spec Transforms TransformProofs ModuleSpec ModuleProofs FixProofs ValidProofs.
 Import ListNotations.
 Open Scope Z_scope.
 
@@ -39,3 +39,15 @@ Example C14_example :
                      SIf (EId "c") [SGate [] "x" [] [q 1]; SMeasure (q 1) (Some (c 1))] [SBarrier [q 0]]]
   = [SInclude "stdgates.inc"; SIf (EId "c") [SGate [] "x" [] [q 1]] [SBarrier [q 0]]].
 Proof. vm_compute. reflexivity. Qed.
+
+(* ---- the visitor model and the program after a removal (Module/ValidProofs.v + Lang/FixProofs.v) ----
+   Removing every measurement, every barrier or every include from a well-formed flat program (what unroll() leaves,
+   Props/C03.v) leaves a well-formed flat program -- unless the removal empties the if-block of a conditional (the known
+   finding C03-empty-if-block) -- so validate() accepts the result and unroll() accepts it and emits it unchanged:
+   the statements that remain are really untouched by any later visit. *)
+Theorem C14_result_is_a_valid_program_the_visitor_leaves_as_it_is fuel k p :
+  wf_flat env0 p = true -> has_empty_if (remove_kind k p) = false -> (ldepth (remove_kind k p) < fuel)%nat ->
+  (exists o, run_visit false true [] fuel (remove_kind k p) = Ok o) /\
+  (exists o, run_visit false false [] fuel (remove_kind k p) = Ok o /\ o_stmts o = remove_kind k p).
+Proof. exact (removal_result_is_valid_and_stable fuel k p). Qed.
+Print Assumptions C14_result_is_a_valid_program_the_visitor_leaves_as_it_is.
